@@ -50,34 +50,7 @@ def run_all(obs, tier, logdir, jobs):
 
 
 def do_replay(rp, path):
-    sys.path.insert(0, VERIF)
-    from mirsym import concrete as C
-    pid = rp["property"]
-    bad = False
-    try:
-        for prof in ("debug", "release"):
-            out = C.Native.run(rp["request"], prof)
-            opi = rp.get("op_index", len(out) - 1)
-            res = out[opi] if opi < len(out) else out[-1]
-            exp = rp.get("expected")
-            print(f"[{prof}] native: {json.dumps(res)[:300]}")
-            print(f"[{prof}] expected: {str(exp)[:300]}")
-            if rp.get("compare") == "pair":
-                a, b = out[rp["pair"][0]], out[rp["pair"][1]]
-                if a != b:
-                    bad = True
-            elif exp in ("err",):
-                if "ok" in res or "panic" in res:
-                    bad = True
-            elif exp is not None and exp not in ("any",):
-                if res.get("ok") != exp:
-                    bad = True
-            if "panic" in res and rp.get("message", "").find("panic") >= 0:
-                bad = True
-    finally:
-        C.Native.cleanup()
-    if bad:
-        print(f"VIOLATION property={pid} replay={path}")
-        return 1
-    print("replay: property holds on this input")
-    return 0
+    """E2 replays need the tooling venv (z3 is imported by the native bridge): delegate to vlib.mirsym_replay under python3-vt"""
+    import subprocess
+    p = subprocess.run(["python3-vt", "-m", "vlib.mirsym_replay", os.path.abspath(path)], cwd=VERIF)
+    return p.returncode
